@@ -19,7 +19,11 @@ Oracle (float64, public arrays only, formulas written from the property statemen
 Workload diversity (added after the seeded-change campaign): every sixth body starts with omega == 0 exactly, every
 sixth with V == 0 exactly; every fifth case builds a SIBLING grid of the same class with the same structural constructor
 arguments (element count, density / number of forcing points) around another body, with positional constructor arguments
-(with_cap default left out), checks it, and then re-checks the FIRST grid.
+(with_cap default left out), checks it, and then re-checks the FIRST grid.  The second state of every case changes the BODY
+under the SAME grid object: rods are stretched / compressed per element by 0.7..1.4 along their tangents (PyElastica then
+rescales rod.radius per element, so surface / edge markers must sit at the CURRENT radius x cap ratio) in 60 % of the cases,
+rigid bodies get a completely new centre and director frame in 50 % (a grid that cached geometry at construction is stale);
+2-D rigid states with d3 = -z and non-zero spin are counted and required.
 
 Tolerances: 64 * eps64 * (|terms|).  Measured max err/tol on the unchanged tree (quick seeds 0..5, thorough
 seeds 0,1): rigid_velocity 0.022, rod_velocity 0.009, rod_position 0.06 (0.05 of it on the edge grid: PyElastica's
@@ -91,6 +95,10 @@ REQUIRE = {
     "nodal_markers_checked": 50,
     "bodies_2d_d3_flipped": 1,
     "states_after_motion": 50,
+    "rod_states_after_cross_section_change": 100,
+    "radius_dependent_grids_after_radius_change_gt_5pct": 30,
+    "rigid_states_after_new_pose_on_same_grid": 50,
+    "states_2d_d3_flipped_with_nonzero_spin": 20,
     "states_with_omega_exactly_zero": 50,
     "states_with_velocity_exactly_zero": 50,
     "sibling_grids_checked": 50,
@@ -314,9 +322,21 @@ def _move(case, rng):
     kin(np.float64(h), b.position_collection, b.director_collection, b.velocity_collection, b.omega_collection)
     if case.family == "rod":
         bodies.refresh_rod_geometry(b)
+        if rng.random() < 0.6:
+            # the cross-sections change AFTER the grid was built (axial stretch => rod.radius rescaled per element by
+            # PyElastica): a grid that cached radius / lengths at construction is stale now
+            r_before = np.array(b.radius)
+            bodies.stretch_rod(b, rng)
+            case.meta["stretched"] = True
+            case.meta["radius_change_max"] = float(np.max(np.abs(np.array(b.radius) / r_before - 1.0)))
         bodies.set_rod_velocities(b, rng, case.dim)
     else:
-        bodies.set_rigid_state(b, rng, case.dim, centre=b.position_collection[:, 0].copy(), keep_directors=True)
+        if rng.random() < 0.5:
+            # a completely new pose (centre and directors) on the SAME grid object, not just a small kinematic advance
+            bodies.set_rigid_state(b, rng, case.dim)
+            case.meta["reposed"] = True
+        else:
+            bodies.set_rigid_state(b, rng, case.dim, centre=b.position_collection[:, 0].copy(), keep_directors=True)
 
 
 def _positional_grid(case):
@@ -401,6 +421,16 @@ def run_shard(sh, rec):
             if state:
                 _move(case, rng)
                 rec.count("states_after_motion")
+                if case.meta.get("stretched"):
+                    rec.count("rod_states_after_cross_section_change")
+                    if kind in ("surface3d", "surfacecap3d", "edge2d") and case.meta.get("radius_change_max", 0) > 0.05:
+                        rec.count("radius_dependent_grids_after_radius_change_gt_5pct")
+                if case.meta.get("reposed"):
+                    rec.count("rigid_states_after_new_pose_on_same_grid")
+                if case.dim == 2 and case.family == "rigid":
+                    case.meta["flipped"] = bool(case.body.director_collection[2, 2, 0] < 0)
+            if case.dim == 2 and case.family == "rigid" and case.meta.get("flipped") and case.body.omega_collection[2, 0] != 0:
+                rec.count("states_2d_d3_flipped_with_nonzero_spin")
             try:
                 bodies.refresh_grid(case.grid)
             except Exception as e:
